@@ -421,6 +421,12 @@ def prop3_specs(tier):
             if combo[0] is None:
                 continue
             out.append({"family": "prop3", "shape": shape, "props": list(combo)})
+        if shape in ("chain2", "chain3"):
+            # the last class extends the INHERITED property with a setter of its own (@Base.m.setter): getter and deleter are shared
+            for base_opt in pc[1:]:
+                for sopt in opts:
+                    props = [base_opt] + [None] * (len(classes) - 2) + [{"ext_setter": list(sopt)}]
+                    out.append({"family": "prop3", "shape": shape, "props": props})
     return out
 
 
@@ -431,7 +437,17 @@ def render_prop3(spec):
         body = []
         if not bases:
             body += ["def __init__(self):", "    self.a = 1"]
-        if popt is not None:
+        if isinstance(popt, dict):
+            opt = tuple(popt["ext_setter"])
+            pres, posts = cnames(cls, opt, "s")
+            for n in pres:
+                w.append("class E_{0}(Exception): pass\ndef {0}(x):\n    LOG.append(('pre', '{0}'))\n    return _truth('{0}')\n".format(n))
+            for n in posts:
+                w.append("class E_{0}(Exception): pass\ndef {0}(result):\n    LOG.append(('post', '{0}'))\n    return _truth('{0}')\n".format(n))
+            decos = ["@icontract.require({0}, error=E_{0})".format(n) for n in reversed(pres)] + \
+                    ["@icontract.ensure({0}, error=E_{0})".format(n) for n in reversed(posts)]
+            body += ["@{}.m.setter".format(bases[0])] + decos + ["def m(self, x):", "    LOG.append(('body', '{}.s'))".format(cls)]
+        elif popt is not None:
             for (tag, _), opt in zip(ACC, popt):
                 pres, posts = cnames(cls, tuple(opt), tag)
                 arg = "x" if tag == "s" else "self"
@@ -459,11 +475,14 @@ def check_prop3(spec, acc):
     refs = {}
     for ai, (tag, _) in enumerate(ACC):
         sub = {"shape": spec["shape"], "kind": {"g": "pget", "s": "pset", "d": "pdel"}[tag], "name": "m",
-               "members": [None if p is None else tuple(p[ai]) for p in spec["props"]], "invs": [0] * len(classes), "inits": [None] * len(classes)}
+               "members": [None if p is None else ((tuple(p["ext_setter"]) if tag == "s" else None) if isinstance(p, dict) else tuple(p[ai]))
+                           for p in spec["props"]], "invs": [0] * len(classes), "inits": [None] * len(classes)}
         refs[tag] = Ref(sub, prefix=tag)
     must = [c for r in refs.values() for c, v in r.def_error.items() if v == "must"]
     may = [c for r in refs.values() for c, v in r.def_error.items() if v == "may"]
-    f0 = {"family": "prop3", "shape": spec["shape"], "props": "/".join("-" if p is None else "".join("{}{}".format(*o) for o in p) for p in spec["props"])}
+    f0 = {"family": "prop3", "shape": spec["shape"],
+          "props": "/".join("-" if p is None else ("ext_s{}{}".format(*p["ext_setter"]) if isinstance(p, dict) else "".join("{}{}".format(*o) for o in p))
+                            for p in spec["props"])}
     ns, def_exc = None, None
     try:
         ns = core.fresh_ctx_run(core.load_source, src, "c04p")
